@@ -102,6 +102,9 @@ func runCase(c Case, x *ev.Ctx) error {
 	ra := world.NewResponder(o, "/a", pa, world.OCSPAnswer{Kind: "good", NextUpdate: c.NextUpdate})
 	chainsA := [][]*x509.Certificate{{leafA.Cert, caA.Cert}}
 	D := time.Duration(c.DMillis) * time.Millisecond
+	// another validator of the same process, provisioned FIRST, with a long default cache duration: what it is
+	// configured with must not leak into the instances under observation
+	_ = world.NewOCSPChecker(world.OCSPOpts{Strict: true, Cache: time.Hour})
 	var chk []world.Checker
 	for i := 0; i < c.Instances; i++ {
 		chk = append(chk, world.NewOCSPChecker(world.OCSPOpts{Strict: true, Cache: D}))
@@ -134,6 +137,10 @@ func runCase(c Case, x *ev.Ctx) error {
 	}
 	if err := whiteBoxLifetime(c, base, o, chk[0], x); err != nil {
 		return err
+	}
+	// the same with an instance whose default duration is far longer than the response's remaining validity
+	if err := whiteBoxLifetime(c, base+" long default", o, world.NewOCSPChecker(world.OCSPOpts{Strict: true, Cache: []time.Duration{2 * time.Hour, 24 * time.Hour}[c.AgeHours%2]}), x); err != nil {
+		return fmt.Errorf("instance with a long default_cache_duration: %v", err)
 	}
 	if c.Concurrent {
 		if err := concurrentCerts(c, base, o, x); err != nil {
@@ -329,7 +336,7 @@ var spec = ev.Spec[Case]{
 	ID:   "C14",
 	Gen:  genCase,
 	Run:  runCase,
-	Rule: "rapid draws an access pattern: default cache duration D in {0, 300, 400, 600 ms}, read period in {D/5, D/2, 2D}, 6..14 reads alternating over 1..2 checker instances, responder flip good->revoked after 1..3 reads, nextUpdate in {absent, already past}, optionally a first query that fails, and a twin certificate with identical subject and serial from another issuer whose name differs in CN / a DC component / an added emailAddress / RDN order (of DC components, or X.500 vs LDAP order of C, O, CN) / the organisation only (same CN) / an additional earlier CN / the grouping of O and CN into one multi-valued RDN. Oracles: (a) a read that STARTS more than D + 60 ms after the answer now cached was obtained must ask the responder again (upper bound only: slowness adds time and can never cause a failure); a read that asked the responder returns the responder's current status; (b) the twin triggers a request to its own responder and gets its own verdict; (c) with D = 0 and no usable nextUpdate every read asks the responder; (d) after a failed query the next read asks again; (e) white-box: after an authentic answer with nextUpdate = now + 1 h and a thisUpdate 0 / 1 / 6 / 48 h old, the lifetime stored with the cache entry (the cache library's LifeSpan and / or the absolute expiry kept with the response, read through a verif export) is at most nextUpdate - now + 15 min; (g) optionally, after the pattern the cached answer runs out and the responder then fails (HTTP 500, garbage, or an answer signed by a stranger): every (strict) instance must deny; (f) in half of the cases two different certificates are first checked concurrently on one instance while the first responder is held, and each must afterwards get its own status. Every case is non-trivial; distinct by the full pattern.",
+	Rule: "rapid draws an access pattern: default cache duration D in {0, 300, 400, 600 ms}, read period in {D/5, D/2, 2D}, 6..14 reads alternating over 1..2 checker instances, responder flip good->revoked after 1..3 reads, nextUpdate in {absent, already past}, optionally a first query that fails, and a twin certificate with identical subject and serial from another issuer whose name differs in CN / a DC component / an added emailAddress / RDN order (of DC components, or X.500 vs LDAP order of C, O, CN) / the organisation only (same CN) / an additional earlier CN / the grouping of O and CN into one multi-valued RDN. Oracles: (a) a read that STARTS more than D + 60 ms after the answer now cached was obtained must ask the responder again (upper bound only: slowness adds time and can never cause a failure); a read that asked the responder returns the responder's current status; (b) the twin triggers a request to its own responder and gets its own verdict; (c) with D = 0 and no usable nextUpdate every read asks the responder; (d) after a failed query the next read asks again; (e) white-box (on the observed instance and on one whose default duration is 2 h / 24 h; another instance with a 1 h default is always provisioned first in the process): after an authentic answer with nextUpdate = now + 1 h and a thisUpdate 0 / 1 / 6 / 48 h old, the lifetime stored with the cache entry (the cache library's LifeSpan and / or the absolute expiry kept with the response, read through a verif export) is at most nextUpdate - now + 15 min; (g) optionally, after the pattern the cached answer runs out and the responder then fails (HTTP 500, garbage, or an answer signed by a stranger): every (strict) instance must deny; (f) in half of the cases two different certificates are first checked concurrently on one instance while the first responder is held, and each must afterwards get its own status. Every case is non-trivial; distinct by the full pattern.",
 	Assumptions: []string{
 		"lifetimes of nextUpdate + 15 min cannot be waited out; the default-duration lifetime is exercised in time, the nextUpdate lifetime is read white-box from the cache library's item (skipped if the item cannot be found)",
 		"wall-clock: only lower bounds on elapsed time are used, so a slow machine cannot produce a violation",
